@@ -68,7 +68,19 @@ CLAIMED["C14"] = dict(
     note="Trusted: the harness protocol per kind (DESIGN.md §12) is what a careful user does; no calls after the first Err. /dev/full is the real kernel device.",
     engine="seq-sim + thread-sim")
 
-NOT_YET = {p: "claimed in DESIGN.md; check under construction in this round (will move to checks when registered)" for p in ["C03","C15","C16"]}
+CLAIMED["C03"] = dict(
+    category="exploration", design="DESIGN.md §8 C03",
+    technique="deterministic simulation of real OS threads under a baton scheduler (seeded random / PCT / forced completion-permutation schedules) with sink, source and corrupt-block fault injection; differential oracle vs the single-threaded writer and the flat model",
+    text="The real MultithreadedWriter/MultithreadedReader code runs on real OS threads, serialised by a baton: every channel "
+         "operation, thread start, join, pool pick-up and sink/source call is a scheduling point decided by a seeded strategy "
+         "(crossbeam-channel and rayon are substituted at the Cargo level by shims with the same semantics). Writer output must "
+         "be byte-identical to bgzf::io::Writer for the same history; reader bytes/positions must equal the flat model after "
+         "every operation incl. seeks; deadlock and livelock are detected exactly; injected sink failures, source errors and "
+         "corrupt blocks must surface from a later call. Seeded search over schedules (6 000 quick / 400 000 thorough), not proof.",
+    note="Trusted: shim fidelity (bounded channels, disconnect semantics, pool as 'any idle worker picks any queued task'); hooks H1 add only scheduling points. Each run is replayable from its recorded decision list.",
+    engine="thread-sim")
+
+NOT_YET = {p: "claimed in DESIGN.md; check under construction in this round (will move to checks when registered)" for p in ["C15","C16"]}
 
 NOT_APPLICABLE = {
     "C04": "pure function of (records, block layout, index geometry, region): no schedule, fault, crash point or history in the statement; input generation with a scan oracle is not deterministic simulation. Reader-state carry-over between seeks is decided in C02, delivery independence of queries in C12, corrupt indexes in C15.",
